@@ -220,15 +220,25 @@ Definition delay_ok (h : hjob) : bool := forallb nonanswer (q_syn (hj_req h)).
 Definition linked (pc : pcfg) (c : cfg) : Prop :=
   has_send_ack pc = true /\ has_syn c = true /\ exists f, fd_truthy (synfd c) = Some f.
 
+(* _ack gets as far as its answer: the job was refused on entry (no callback is run), or
+   the accept callback (if any) returns.  A raising accept callback leaves _ack through
+   `except self._propagate_errors` (observation O1 of docs/C03.md): no answer at all, see
+   hs_raising_callback_starves. *)
+Definition cb_returns (pc : pcfg) (h : hjob) : bool :=
+  hj_cancel h || negb (has_accept_cb pc && hj_raises h).
+
+(* the answer depends on the flag as _ack read it on entry ([hj_cancel]) -- not on a
+   cancellation that lands while the hooks run ([hj_late]) *)
 Lemma syn_answer_linked pc c h :
-  linked pc c ->
+  linked pc c -> cb_returns pc h = true ->
   syn_answer pc true c h = [RMsg (if hj_cancel h then NACK else ACK)].
 Proof.
-  intros (Hs & _ & f & Hf). unfold syn_answer, p_ack, ar_at_ack.
+  intros (Hs & _ & f & Hf) Hr. unfold syn_answer, p_ack, ar_at_ack.
   cbn [in_cache cancelled negb is_ready worker_pid time_accepted snd].
-  rewrite Hs, Hf. destruct (hj_cancel h); cbn [andb snd responses flat_map app].
+  rewrite Hs, Hf. unfold cb_returns in Hr.
+  destruct (hj_cancel h); cbn [andb orb snd responses flat_map app] in *.
   - reflexivity.
-  - rewrite andb_false_r. cbn [snd].
+  - apply negb_true_iff in Hr. rewrite Hr. cbn [snd].
     destruct (has_accept_cb pc); cbn [app flat_map responses]; reflexivity.
 Qed.
 
@@ -243,12 +253,12 @@ Proof. unfold hs_req, with_syn. cbn. repeat split. Qed.
 (* the worker's decision about a job is exactly the parent's: run iff not cancelled
    before acceptance; and the answer is read by this job's own wait *)
 Theorem hs_confirmed pc c h :
-  linked pc c -> delay_ok h = true ->
+  linked pc c -> delay_ok h = true -> cb_returns pc h = true ->
   confirmed c (hs_req pc true c h) = negb (hj_cancel h) /\
   fst (syn_result c (hs_req pc true c h)) = (if hj_cancel h then SynFalse else SynTrue) /\
   syn_closed (hs_req pc true c h) = true.
 Proof.
-  intros L D. pose proof (syn_answer_linked pc c h L) as A.
+  intros L D R. pose proof (syn_answer_linked pc c h L R) as A.
   destruct L as (_ & Hh & _).
   assert (E : fst (syn_result c (hs_req pc true c h)) = if hj_cancel h then SynFalse else SynTrue).
   { unfold syn_result. rewrite Hh. unfold hs_req, with_syn. cbn [q_syn]. rewrite A.
@@ -270,8 +280,26 @@ Proof.
   assert (A : syn_answer pc dl c h = []).
   { unfold syn_answer. destruct dl; [|reflexivity]. destruct Hn as [Hn|Hn]; [|discriminate].
     unfold p_ack, ar_at_ack. cbn [in_cache cancelled negb is_ready snd]. rewrite Hn.
-    rewrite andb_false_r. cbn [snd]. rewrite andb_false_r.
-    destruct (has_accept_cb pc); reflexivity. }
+    rewrite andb_false_r. cbn [snd].
+    destruct (has_accept_cb pc), (hj_raises h); reflexivity. }
+  rewrite A, app_nil_r. rewrite <- (app_nil_r (q_syn (hj_req h))).
+  rewrite (wait_for_syn_delay _ _ D). reflexivity.
+Qed.
+
+(* the accept callback of a job that _ack has accepted raises: Python evaluates
+   `except self._propagate_errors`, AttributeError leaves _ack (on_ack swallows it), owner
+   and timeouts are recorded but NO answer is sent -- the worker waits for ever
+   (observation O1; the handshake cases of the harness reproduce it on the real code) *)
+Theorem hs_raising_callback_starves pc c h :
+  linked pc c -> delay_ok h = true -> hj_cancel h = false ->
+  has_accept_cb pc = true -> hj_raises h = true ->
+  fst (syn_result c (hs_req pc true c h)) = SynStarved.
+Proof.
+  intros (Hs & Hh & f & Hf) D Hc Ha Hr. unfold syn_result. rewrite Hh.
+  unfold hs_req, with_syn. cbn [q_syn].
+  assert (A : syn_answer pc true c h = []).
+  { unfold syn_answer, p_ack, ar_at_ack. cbn [in_cache cancelled negb is_ready snd].
+    rewrite Hc, Ha, Hr. reflexivity. }
   rewrite A, app_nil_r. rewrite <- (app_nil_r (q_syn (hj_req h))).
   rewrite (wait_for_syn_delay _ _ D). reflexivity.
 Qed.
@@ -356,7 +384,7 @@ Qed.
    jobs that were not cancelled; and the run over ONE shared SYN stream is this same run
    (nothing is ever left in the stream for another job). *)
 Theorem hs_whole_run pc c hins :
-  linked pc c -> (forall h, In (RMsg h) hins -> delay_ok h = true) ->
+  linked pc c -> (forall h, In (RMsg h) hins -> delay_ok h = true /\ cb_returns pc h = true) ->
   let ins := hs_ins pc true c hins in
   exists k,
     proto (w_events c ins) = flat_map (hblock pc c) (firstn k (htasks hins)) /\
@@ -369,7 +397,7 @@ Proof.
   unfold ins in Hp, Hc. rewrite tasks_hs_ins, firstn_map in Hp, Hc.
   assert (HC : forall h, In h (firstn k (htasks hins)) ->
                          confirmed c (hs_req pc true c h) = negb (hj_cancel h)).
-  { intros h Hh. apply (hs_confirmed pc c h L). apply D, in_htasks. eapply firstn_In; exact Hh. }
+  { intros h Hh. apply (hs_confirmed pc c h L); apply D, in_htasks; eapply firstn_In; exact Hh. }
   assert (Hp' : proto (w_events c ins) = flat_map (hblock pc c) (firstn k (htasks hins))).
   { unfold ins. rewrite Hp. rewrite flat_map_concat_map, map_map, <- flat_map_concat_map.
     apply flat_map_ext_in. intros h Hh. unfold block, hblock. rewrite (HC h Hh).
@@ -390,7 +418,7 @@ Proof.
   - apply workloop_shared_eq. intros q Hq. unfold ins, hs_ins in Hq.
     apply in_map_iff in Hq. destruct Hq as [e [He Hin]].
     destruct e; try discriminate He. cbn [hs_in] in He. inversion He; subst q.
-    apply (hs_confirmed pc c a L). apply D. exact Hin.
+    apply (hs_confirmed pc c a L); apply D; exact Hin.
 Qed.
 
 (* ---- the configuration a user of plain billiard can enable: synack=True, but
@@ -405,7 +433,7 @@ Definition synack_honours_cancel : Prop :=
 
 Definition plain_pc : pcfg := mk_pcfg true true true true true.
 Definition plain_cfg : cfg := mk_cfg None None 7 None 4242 None None.
-Definition plain_job : hjob := mk_hjob (mk_req TASK 41 None 100 (Returns 5) [] 0 false) true.
+Definition plain_job : hjob := mk_hjob (mk_req TASK 41 None 100 (Returns 5) [] 0 false) true false false.
 
 Theorem synack_without_syn_queue_witness :
   has_send_ack plain_pc = true /\ has_syn plain_cfg = false /\ hj_cancel plain_job = true /\
@@ -423,3 +451,114 @@ Proof.
   intros H. specialize (H plain_pc plain_cfg plain_job eq_refl eq_refl).
   destruct H as [H _]. vm_compute in H. discriminate H.
 Qed.
+
+(* ------------------------------------------------------------------ *)
+(* 4. the hook point inside _ack: between the decision (the ONE reading of the
+      cancellation flag, on entry) and the answer, the timeout hook and the accept callback
+      run; a _cancel() can land there (issued by the callback itself or by another thread) *)
+Definition with_cancelled (s : ar) (b : bool) : ar :=
+  mk_ar (accepted s) b (worker_pid s) (time_accepted s) (is_ready s) (in_cache s).
+
+(* such a cancellation sets the flag of an accepted job and changes NOTHING else: same
+   hooks in the same order with the same arguments, same answer, same ownership record *)
+Theorem p_ack_late_cancel pc s t pid fd r lc :
+  snd (p_ack pc s t pid fd r lc) = snd (p_ack pc s t pid fd r false) /\
+  fst (p_ack pc s t pid fd r lc) =
+  (if in_cache s && negb (cancelled s && has_send_ack pc)
+   then with_cancelled (fst (p_ack pc s t pid fd r false)) (cancelled s || lc)
+   else fst (p_ack pc s t pid fd r false)).
+Proof.
+  unfold p_ack, with_cancelled. destruct (in_cache s); cbn [negb andb]; [|split; reflexivity].
+  destruct (cancelled s && has_send_ack pc); cbn [negb]; [split; reflexivity|].
+  destruct (has_accept_cb pc && r); cbn [fst snd accepted worker_pid time_accepted is_ready in_cache];
+    split; reflexivity.
+Qed.
+
+(* The answer is determined by the FIRST reading of the flag.  Handshake on, truthy
+   descriptor: refused on entry -> NACK; accepted on entry -> ACK, whatever lands while the
+   hooks run; no answer exactly when the accept callback raises. *)
+Theorem p_ack_answer_first_read pc s t pid fd r lc f :
+  in_cache s = true -> has_send_ack pc = true -> fd_truthy fd = Some f ->
+  responses (snd (p_ack pc s t pid fd r lc)) =
+  if cancelled s then [RMsg NACK]
+  else if has_accept_cb pc && r then [] else [RMsg ACK].
+Proof.
+  intros Hc Hs Hf. unfold p_ack. rewrite Hc, Hs, Hf. cbn [negb].
+  destruct (cancelled s); cbn [andb snd responses flat_map app]; [reflexivity|].
+  destruct (has_accept_cb pc); cbn [andb]; [destruct r|]; reflexivity.
+Qed.
+
+(* trace level (what the monitor of the harness judges on the real code): in ONE run of
+   _ack the accept callback and a NACK answer never occur together *)
+Theorem p_ack_accepted_never_refused pc s t pid fd r lc p t' resp p' f :
+  In (OCbAccept p t') (snd (p_ack pc s t pid fd r lc)) ->
+  In (OSendAck resp p' f) (snd (p_ack pc s t pid fd r lc)) ->
+  resp = ACK.
+Proof.
+  unfold p_ack. destruct (negb (in_cache s)); cbn [snd]; [intros []|].
+  destruct (cancelled s && has_send_ack pc); cbn [snd].
+  - destruct (fd_truthy fd); [intros [H|[]]; discriminate H|intros []].
+  - intros _. destruct (has_accept_cb pc && r); cbn [snd]; intros H.
+    + destruct H as [H|H]; [discriminate H|].
+      destruct (has_accept_cb pc); [destruct H as [H|[]]; discriminate H|destruct H].
+    + destruct H as [H|H]; [discriminate H|]. apply in_app_or in H. destruct H as [H|H].
+      * destruct (has_accept_cb pc); [destruct H as [H|[]]; discriminate H|destruct H].
+      * destruct (has_send_ack pc); [|destruct H]. destruct (fd_truthy fd); [|destruct H].
+        destruct H as [H|[]]. inversion H. reflexivity.
+Qed.
+
+(* closed handshake: the accept callback of a job ran (and returned) => the worker runs the
+   job.  [hj_late] is arbitrary: cancelling during acceptance is too late to refuse. *)
+Theorem hs_accept_callback_implies_run pc c h p t :
+  linked pc c -> delay_ok h = true -> hj_raises h = false ->
+  In (OCbAccept p t) (snd (p_ack pc (ar_at_ack (hj_cancel h)) (q_t (hj_req h)) (eff_pid c)
+                                 (synfd c) (hj_raises h) (hj_late h))) ->
+  confirmed c (hs_req pc true c h) = true /\
+  fst (syn_result c (hs_req pc true c h)) = SynTrue.
+Proof.
+  intros L D Hr Hin.
+  assert (Hc : hj_cancel h = false).
+  { destruct (hj_cancel h) eqn:E; [|reflexivity]. exfalso.
+    destruct L as (Hs & _ & f & Hf). unfold p_ack, ar_at_ack in Hin.
+    cbn [in_cache cancelled negb] in Hin. rewrite Hs, Hf in Hin. cbn [andb snd] in Hin.
+    destruct Hin as [H|[]]. discriminate H. }
+  assert (R : cb_returns pc h = true).
+  { unfold cb_returns. rewrite Hr, andb_false_r. apply orb_true_r. }
+  destruct (hs_confirmed pc c h L D R) as (A & B & _). rewrite Hc in A, B. split; assumption.
+Qed.
+
+(* ... and nothing the worker ever reads depends on it: the worker's inputs, hence its
+   whole run, are the same with every late cancellation removed *)
+Definition no_late (h : hjob) : hjob := mk_hjob (hj_req h) (hj_cancel h) (hj_raises h) false.
+Definition no_late_in (e : rcv hjob) : rcv hjob :=
+  match e with
+  | RShutdown => RShutdown | RTimeout => RTimeout | REintr => REintr | REof => REof
+  | RIOErr => RIOErr | RNoneMsg => RNoneMsg | RFalsy => RFalsy
+  | RMsg h => RMsg (no_late h)
+  end.
+
+Theorem hs_late_cancel_invisible pc dl c hins :
+  hs_ins pc dl c hins = hs_ins pc dl c (map no_late_in hins).
+Proof.
+  unfold hs_ins. rewrite map_map. apply map_ext. intros [| | | | | | |h]; try reflexivity.
+  cbn [no_late_in hs_in]. f_equal. unfold hs_req, syn_answer, no_late.
+  cbn [hj_req hj_cancel hj_raises hj_late].
+  destruct dl; [|reflexivity].
+  rewrite (proj1 (p_ack_late_cancel pc (ar_at_ack (hj_cancel h)) (q_t (hj_req h)) (eff_pid c)
+                                    (synfd c) (hj_raises h) (hj_late h))).
+  reflexivity.
+Qed.
+
+(* the statement a second reading of the flag would make false, with its witness: linked
+   handshake, accept callback cancels its own job -> ACK, RUN, READY *)
+Example late_cancel_witness :
+  let pc := mk_pcfg true true true true true in
+  let c := mk_cfg None (Some 9) 7 None 4242 None None in
+  let h := mk_hjob (mk_req TASK 41 None 100 (Returns 5) [RTimeout] 0 false) false false true in
+  p_ack pc (ar_at_ack false) 100 4242 (Some 9) false true =
+  (mk_ar true true (Some 4242) (Some 100) false true,
+   [OTimeoutSet; OCbAccept 4242 100; OSendAck ACK 4242 9]) /\
+  proto (w_events c (hs_ins pc true c [RMsg h; RShutdown])) =
+  [EPut (mk_msg ACK 41 None (PAckP 100 4242 (Some 9))); ERun 41 None;
+   EPut (mk_msg READY 41 None (PReadyP (ROk 5) 7))].
+Proof. vm_compute. split; reflexivity. Qed.
